@@ -2,5 +2,6 @@ SPECIFICATION Spec
 CONSTANTS
   MaxN = 6
   Names = {"a"}
+  Mode = "pairs"
 INVARIANT EncodingOK
 INVARIANT Log
